@@ -130,6 +130,22 @@ func init() {
 		in.assume(Cmp(OUlt, v, BV(64, uint64(n))))
 		return mkInt(int64(in.concretize(v)))
 	})
+	reg(vrtPath+"PickString", func(in *Interp, fr *frame, a []Value) Value {
+		opts := a[0].(Slice)
+		if len(opts) == 0 {
+			in.abort("PickString: no options")
+		}
+		if len(opts) == 1 {
+			return opts[0]
+		}
+		idx := in.nondet("Pick", 8)
+		in.assume(Cmp(OUlt, idx, BV(8, uint64(len(opts)))))
+		t := in.strTerm(opts[len(opts)-1])
+		for i := len(opts) - 2; i >= 0; i-- {
+			t = Ite(Eq(idx, BV(8, uint64(i))), in.strTerm(opts[i]), t)
+		}
+		return &SymStr{t: t}
+	})
 	reg(vrtPath+"Assume", func(in *Interp, fr *frame, a []Value) Value { in.assume(asTerm(a[0])); return nil })
 	reg(vrtPath+"Assert", func(in *Interp, fr *frame, a []Value) Value {
 		msg, _ := a[1].(string)
@@ -313,6 +329,110 @@ func init() {
 			}
 		}
 	})
+
+	// ---- sort.Slice and friends: the real sort algorithms run; only the reflection-based swapper is native
+	sortSlice := func(stable bool) intrinsicFn {
+		return func(in *Interp, fr *frame, a []Value) Value {
+			x := a[0].(Iface)
+			sl, ok := x.v.(Slice)
+			if !ok {
+				in.abort("sort.Slice: not a slice")
+			}
+			swap := &Native{name: "swapper", fn: func(in *Interp, args []Value) Value {
+				i := in.index(args[0], len(sl))
+				j := in.index(args[1], len(sl))
+				sl[i], sl[j] = sl[j], sl[i]
+				return nil
+			}}
+			ls := Struct{a[1], swap}
+			n := len(sl)
+			if stable {
+				in.call(fr, 0, in.pkgFunc("sort", "stable_func"), []Value{ls, mkInt(int64(n))})
+			} else {
+				limit := 0
+				for v := uint(n); v != 0; v >>= 1 {
+					limit++
+				}
+				in.call(fr, 0, in.pkgFunc("sort", "pdqsort_func"), []Value{ls, mkInt(0), mkInt(int64(n)), mkInt(int64(limit))})
+			}
+			return nil
+		}
+	}
+	reg("sort.Slice", sortSlice(false))
+	reg("sort.SliceStable", sortSlice(true))
+	reg("internal/reflectlite.Swapper", func(in *Interp, fr *frame, a []Value) Value {
+		x := a[0].(Iface)
+		sl, _ := x.v.(Slice)
+		return &Native{name: "swapper", fn: func(in *Interp, args []Value) Value {
+			i := in.index(args[0], len(sl))
+			j := in.index(args[1], len(sl))
+			sl[i], sl[j] = sl[j], sl[i]
+			return nil
+		}}
+	})
+
+	// ---- byte-slice primitives (compiler/assembly intrinsics in the real runtime)
+	bytesEq := func(in *Interp, fr *frame, a []Value) Value {
+		x, y := a[0].(Slice), a[1].(Slice)
+		if len(x) != len(y) {
+			return tFalse
+		}
+		r := tTrue
+		for i := range x {
+			r = And(r, Eq(x[i].(*Term), y[i].(*Term)))
+		}
+		return r
+	}
+	reg("internal/bytealg.Equal", bytesEq)
+	reg("bytes.Equal", bytesEq)
+	bytesCmp := func(in *Interp, fr *frame, a []Value) Value {
+		x, y := a[0].(Slice), a[1].(Slice)
+		n := len(x)
+		if len(y) < n {
+			n = len(y)
+		}
+		var tail *Term
+		switch {
+		case len(x) < len(y):
+			tail = BV(64, ^uint64(0))
+		case len(x) > len(y):
+			tail = BV(64, 1)
+		default:
+			tail = BV(64, 0)
+		}
+		r := tail
+		for i := n - 1; i >= 0; i-- {
+			xi, yi := x[i].(*Term), y[i].(*Term)
+			r = Ite(Cmp(OUlt, xi, yi), BV(64, ^uint64(0)), Ite(Cmp(OUlt, yi, xi), BV(64, 1), r))
+		}
+		return r
+	}
+	reg("internal/bytealg.Compare", bytesCmp)
+	reg("bytes.Compare", bytesCmp)
+	indexByte := func(in *Interp, fr *frame, a []Value) Value {
+		c := asTerm(a[1])
+		var elems []*Term
+		switch x := a[0].(type) {
+		case Slice:
+			for _, e := range x {
+				elems = append(elems, e.(*Term))
+			}
+		case string:
+			for i := 0; i < len(x); i++ {
+				elems = append(elems, mkByte(x[i]))
+			}
+		default:
+			in.abort("unsupported: IndexByte on %T", a[0])
+		}
+		r := BV(64, ^uint64(0))
+		for i := len(elems) - 1; i >= 0; i-- {
+			r = Ite(Eq(elems[i], c), BV(64, uint64(i)), r)
+		}
+		return r
+	}
+	reg("internal/bytealg.IndexByte", indexByte)
+	reg("internal/bytealg.IndexByteString", indexByte)
+	reg("bytes.IndexByte", indexByte)
 
 	// ---- os
 	reg("os.Getenv", func(in *Interp, fr *frame, a []Value) Value { return "" })
